@@ -26,10 +26,12 @@ const (
 	ListNoAccessor // an object without list accessor (and not meta.List)
 	ListNilNil     // (nil, nil)
 	ListHetero     // corev1.List with a foreign-typed item (valid for untyped)
+	ListStatus     // a *metav1.Status (has ListMeta, no Items) with a nil error
+	ListErrAndList // a non-nil, empty list together with an error (what typed clientsets return on failure)
 )
 
 func (k ListFaultKind) String() string {
-	return [...]string{"ok", "error", "non-list", "non-objects", "no-accessor", "nil-nil", "hetero"}[k]
+	return [...]string{"ok", "error", "non-list", "non-objects", "no-accessor", "nil-nil", "hetero", "status-object", "error-with-empty-list"}[k]
 }
 
 var ErrInjected = errors.New("injected list failure")
@@ -342,6 +344,10 @@ func (s *Server) List(ctx context.Context, opts metav1.ListOptions) (runtime.Obj
 		return finish(&notAnObject{}, nil)
 	case ListNilNil:
 		return finish(nil, nil)
+	case ListStatus:
+		return finish(&metav1.Status{Status: "Failure", Message: "injected", Code: 500, ListMeta: metav1.ListMeta{ResourceVersion: strconv.Itoa(rv)}}, nil)
+	case ListErrAndList:
+		return finish(s.NewList(), ErrInjected)
 	case ListHetero:
 		items, _ := meta.ExtractList(l)
 		hl := &corev1.List{ListMeta: metav1.ListMeta{ResourceVersion: strconv.Itoa(rv)}}
